@@ -375,6 +375,16 @@ func main() {
 			scs = append(scs, scenario(cfg{Seq: []shape{small[0], small[1]}, Cache: ca, MaxCuts: ev.Pick(r, 4, 8), Oversize: ov, MaxSize: 64}))
 		}
 	}
+	// (4b) the same with the peer's CSM in front: what the peer announces it accepts (Max-Message-Size 1024) says nothing
+	// about what this side accepts (64)
+	for _, ov := range [][]byte{
+		{0xd1, 51, 0x02, 0xaa, 1, 2, 3, 4},   // 65 bytes: above the local limit, below the peer's
+		{0xe0, 0x00, 0x10, 0x02, 1, 2, 3, 4}, // 285 bytes
+	} {
+		for _, ca := range []uint16{1, 3, 2048} {
+			scs = append(scs, scenario(cfg{Seq: []shape{small[3], small[1]}, Cache: ca, MaxCuts: ev.Pick(r, 4, 8), Oversize: ov, MaxSize: 64}))
+		}
+	}
 	sum := mcx.Explore(r, scs, mcx.Config{Wall: ev.Pick(r, 4*time.Minute, 30*time.Minute)})
 	mcx.Report(r, scs, sum)
 	r.Set("distinct_nontrivial", sum.Execs-int64(len(scs)))
